@@ -217,14 +217,26 @@ func TestVerifRequested(t *testing.T) {
 		}
 		return
 	}
-	work := 0
+	work, ran := 0, 0
+	expired := false
+	defer func() {
+		if expired {
+			res.NotExhaustive("deadline in the operation-sequence enumeration")
+		}
+	}()
 	var seq []string
 	var rec func()
 	rec = func() {
 		if len(seq) == depth {
 			work++
 			if vh.Mine(work) {
-				run(seq)
+				ran++
+				if ran%4096 == 0 && vh.Expired() {
+					expired = true
+				}
+				if !expired {
+					run(seq)
+				}
 			}
 			return
 		}
